@@ -11,11 +11,124 @@ estimates of `r`.  In external sampling a pass updates the regrets and the strat
 player only, and the average-strategy accumulator of the other player only.
 -/
 set_option linter.unusedSectionVars false
+set_option linter.unusedVariables false
 namespace Cfr
 
 /-- the increments of one traversal, as vectors over the actions of an infoset -/
 noncomputable def incVec (es : List (Eff ℝ)) (me : Bool) (I : Nat) (slot : Slot) (n : Nat) : List ℝ :=
   (List.range n).map (fun a => effSum es me I slot a)
+
+
+namespace SI
+
+/-- the cell after `applyEffs`, in vector form -/
+theorem applyEffs_vec (s : SolveSt ℝ) (es : List (Eff ℝ)) (me : Bool) (I : Nat) (x : InfoSt ℝ)
+    (hx : (s.get me)[I]? = some x) :
+    ∃ x', ((s.applyEffs es).get me)[I]? = some x' ∧ x'.strat = x.strat ∧
+      x'.cumRegret = vadd x.cumRegret (incVec es me I Slot.regret x.cumRegret.length) ∧
+      x'.cumStrat = vadd x.cumStrat (incVec es me I Slot.strat x.cumStrat.length) := by
+  obtain ⟨_, hc⟩ := applyEffs_cell s es me
+  obtain ⟨x', g1, s1, r2, t2, cr2, cs2⟩ := hc I x hx
+  refine ⟨x', g1, s1, ?_, ?_⟩
+  · exact PG.eq_vadd _ _ _ _ rfl r2 cr2
+  · exact PG.eq_vadd _ _ _ _ rfl t2 cs2
+
+theorem vanillaIter_get (g : Game ℝ) (sampled : Bool) (p : RegretParams ℝ) (draw : DrawFn ℝ)
+    (it : ℕ) (s : SolveSt ℝ) (log : List (DrawRec ℝ)) (me : Bool) :
+    (vanillaIter g sampled p draw it s log).1.get me
+      = ((s.applyEffs (vrec ⟨g.chance, sampled, s.strat, draw, it - 1⟩ g.root 1 1 1
+          { log := log }).2.1).get me).map (fun x => (x.advance p it it).1) := by
+  simp only [vanillaIter]
+  cases me
+  · exact (advanceAll_spec p it it _ 0).1
+  · exact (advanceAll_spec p it it _ 0).1
+
+theorem get_set_same (s : SolveSt ℝ) (o : Bool) (l : List (InfoSt ℝ)) : (s.set o l).get o = l := by
+  cases o <;> simp [SolveSt.set, SolveSt.get]
+
+theorem get_set_ne (s : SolveSt ℝ) (o me : Bool) (l : List (InfoSt ℝ)) (h : me ≠ o) :
+    (s.set o l).get me = s.get me := by
+  cases o <;> cases me <;> simp_all [SolveSt.set, SolveSt.get]
+
+theorem externalPass_state (g : Game ℝ) (first : Bool) (p : RegretParams ℝ) (draw : DrawFn ℝ)
+    (it : ℕ) (s : SolveSt ℝ) (log : List (DrawRec ℝ)) :
+    (externalPass g first p draw it s log).1
+      = (s.applyEffs (erec ⟨g.chance, first, s.strat, draw,
+            2 * (it - 1) + (if first then 0 else 1), if first then it - 1 else it⟩ g.root
+            { log := log }).2.1).set first
+          (((s.applyEffs (erec ⟨g.chance, first, s.strat, draw,
+            2 * (it - 1) + (if first then 0 else 1), if first then it - 1 else it⟩ g.root
+            { log := log }).2.1).get first).map
+            (fun x => (x.advance p it (if first then it - 1 else it)).1)) := by
+  simp only [externalPass]
+  rw [(advanceAll_spec p it (if first then it - 1 else it) _ 0).1]
+
+/-! ### the traversal adds nothing to the average-strategy accumulator of the updating player -/
+
+theorem effSum_extStratEffs_strat_ne (one : Bool) (i : ℕ) (me : Bool) (I a : ℕ) (h : one ≠ me) :
+    ∀ (σ : List ℝ) (k : ℕ), effSum (extStratEffs one i σ k) me I Slot.strat a = 0
+  | [], k => by simp [extStratEffs]
+  | s :: σ, k => by
+    simp [extStratEffs, effSum_cons, h, effSum_extStratEffs_strat_ne one i me I a h σ (k + 1)]
+
+theorem effSum_subEffsE_strat (one : Bool) (i : ℕ) (sub : ℝ) (n : ℕ) (me : Bool) (I a : ℕ) :
+    effSum (subEffsE one i sub n) me I Slot.strat a = 0 :=
+  effSum_subEffs_strat one i sub n me I a
+
+theorem effSum_cons_regret_strat (one : Bool) (i k : ℕ) (δ : ℝ) (es : List (Eff ℝ)) (me : Bool)
+    (I a : ℕ) :
+    effSum (⟨one, i, .regret, k, δ⟩ :: es) me I Slot.strat a = effSum es me I Slot.strat a := by
+  rw [effSum_cons]
+  simp
+
+mutual
+theorem erec_strat_zero (c : ECtx ℝ) (I a : ℕ) :
+    ∀ (n : Node ℝ) (d : DrawSt ℝ), effSum (erec c n d).2.1 c.first I Slot.strat a = 0
+  | .term p, d => by simp [erec]
+  | .chance i ks, d => by
+    rw [erec_chance']
+    exact erecNth_strat_zero c I a ks _ _
+  | .player one i ks, d => by
+    by_cases ho : (one == c.first) = true
+    · rw [erec_own' c one i ks d ho]
+      simp only [effSum_append, effSum_subEffsE_strat]
+      rw [erecActs_strat_zero c I a one i _ ks d 0 0]
+      simp
+    · have ho' : one ≠ c.first := by simpa using ho
+      rw [erec_opp' c one i ks d ho]
+      simp only [effSum_append, effSum_extStratEffs_strat_ne one i c.first I a ho', zero_add]
+      exact erecNth_strat_zero c I a ks _ _
+theorem erecNth_strat_zero (c : ECtx ℝ) (I a : ℕ) :
+    ∀ (ks : List (Node ℝ)) (k : ℕ) (d : DrawSt ℝ),
+      effSum (erecNth c ks k d).2.1 c.first I Slot.strat a = 0
+  | [], _, d => by simp [erecNth]
+  | k :: _, 0, d => by
+    simp only [erecNth]
+    exact erec_strat_zero c I a k d
+  | _ :: ks, n + 1, d => by
+    simp only [erecNth]
+    exact erecNth_strat_zero c I a ks n d
+theorem erecActs_strat_zero (c : ECtx ℝ) (I a : ℕ) (one : Bool) (i : ℕ) :
+    ∀ (ss : List ℝ) (ks : List (Node ℝ)) (d : DrawSt ℝ) (k : ℕ) (ex : ℝ),
+      effSum (erecActs c one i ss ks d k ex).2.1 c.first I Slot.strat a = 0
+  | s :: ss, n :: ks, d, k, ex => by
+    rw [erecActs_cons']
+    simp only [effSum_append]
+    rw [effSum_cons_regret_strat, erec_strat_zero c I a n d,
+      erecActs_strat_zero c I a one i ss ks _ _ _]
+    simp
+  | [], _, d, _, _ => by simp [erecActs]
+  | _ :: _, [], d, _, _ => by simp [erecActs]
+end
+
+theorem vadd_zeros (x : List ℝ) (f : ℕ → ℝ) (h : ∀ a, f a = 0) :
+    vadd x ((List.range x.length).map f) = x := by
+  symm
+  apply PG.eq_vadd _ _ _ _ rfl rfl
+  intro a _
+  rw [h a, add_zero]
+
+end SI
 
 /-- **chance-sampled CFR, one iteration**: the DCFR update with the increments of the sampled
 traversal (any draw oracle) -/
@@ -30,7 +143,13 @@ theorem sampled_iterate_update (g : Game ℝ) (hg : GameWF g) (p : RegretParams 
         (vadd x.cumStrat (incVec es me I Slot.strat x.cumStrat.length)) ∧
       x'.strat = regretMatch p.noPositive
         (vadd x.cumRegret (incVec es me I Slot.regret x.cumRegret.length)) := by
-  sorry
+  intro es
+  obtain ⟨x', g1, _, eR, eS⟩ := SI.applyEffs_vec s es me I x hx
+  refine ⟨(x'.advance p it it).1, ?_, ?_, ?_, ?_⟩
+  · rw [SI.vanillaIter_get, List.getElem?_map, g1]; rfl
+  · simp only [InfoSt.advance, eR]
+  · simp only [InfoSt.advance, eS]
+  · simp only [InfoSt.advance, eR]
 
 /-- **external sampling, one pass**: the updating player's infosets get the DCFR regret update
 with the sampled increments and their average-strategy accumulator is only discounted; the other
@@ -51,6 +170,35 @@ theorem external_pass_update (g : Game ℝ) (hg : GameWF g) (first : Bool) (p : 
       (me ≠ first →
         x'.cumRegret = x.cumRegret ∧ x'.strat = x.strat ∧
         x'.cumStrat = vadd x.cumStrat (incVec es me I Slot.strat x.cumStrat.length)) := by
-  sorry
+  intro c es
+  obtain ⟨x', g1, sS, eR, eS⟩ := SI.applyEffs_vec s es me I x hx
+  by_cases hm : me = first
+  · refine ⟨(x'.advance p it (if first then it - 1 else it)).1, ?_, ?_, ?_⟩
+    · rw [SI.externalPass_state, hm, SI.get_set_same, List.getElem?_map]
+      rw [hm] at g1
+      rw [g1]; rfl
+    · intro _
+      have eS' : x'.cumStrat = x.cumStrat := by
+        rw [eS]
+        apply SI.vadd_zeros
+        intro a
+        rw [hm]
+        exact SI.erec_strat_zero c I a g.root _
+      refine ⟨?_, ?_, ?_⟩
+      · simp only [InfoSt.advance, eR]
+      · simp only [InfoSt.advance, eS']
+      · simp only [InfoSt.advance, eR]
+    · intro h; exact absurd hm h
+  · refine ⟨x', ?_, ?_, ?_⟩
+    · rw [SI.externalPass_state, SI.get_set_ne _ _ _ _ hm]
+      exact g1
+    · intro h; exact absurd h hm
+    · intro _
+      have eR' : x'.cumRegret = x.cumRegret := by
+        rw [eR]
+        apply SI.vadd_zeros
+        intro a
+        exact erec_zero c me I a g.root _ (fun h => absurd h hm)
+      exact ⟨eR', sS, eS⟩
 
 end Cfr
